@@ -756,6 +756,26 @@ func Run(r *fw.Run) {
 		ex.WriteString(")\n")
 		sds = append(sds, rq.String()+ex.String())
 	}
+	// exclusions of one path at every version v{0,1}.{1,2,9,10,100}.{1,2,9,10} (and a few pre-releases), in
+	// scrambled order: string order and version order differ in every component, for equal and unequal lengths
+	for _, gov := range []string{"1.20", "1.21", "1.23.4"} {
+		var vs []string
+		for _, a := range []int{0, 1} {
+			for _, b := range []int{1, 2, 9, 10, 100} {
+				for _, c := range []int{1, 2, 9, 10} {
+					vs = append(vs, fmt.Sprintf("v%d.%d.%d", a, b, c))
+				}
+			}
+		}
+		vs = append(vs, "v1.2.3-rc.2", "v1.2.3-rc.10", "v1.2.3-1", "v1.2.3-a", "v1.2.3-9", "v1.2.3-10", "v1.2.3-rc", "v2.0.0+incompatible", "v10.0.0+incompatible")
+		var b strings.Builder
+		fmt.Fprintf(&b, "module example.com/m\n\ngo %s\n\nrequire a.com/x v1.0.0\n\nexclude (\n", gov)
+		for i := range vs {
+			fmt.Fprintf(&b, "\tc.com/z %s\n", vs[(i*29+7)%len(vs)])
+		}
+		b.WriteString("\tb.com/y v1.0.0\n)\n")
+		sds = append(sds, b.String())
+	}
 	reqs := requests()
 	r.Bounds["require_lines_max"] = kmax
 	r.Bounds["seeds"] = len(sds)
